@@ -50,7 +50,13 @@ impl<N> Dag<N, Edge, FnIdInner> {
     /// `Dag::new()`: no nodes, no edges
     #[verifier::external_body]
     pub fn new() -> (r: Self)
-        ensures r.wf(), r.n() == 0, r.edges().len() == 0, r.weights().len() == 0,
+        ensures r.wf(), r.n() == 0, r.edges().len() == 0, r.weights().len() == 0, r.edges() == Seq::<EdgeV>::empty(), r.weights() == Seq::<N>::empty(),
+    { unimplemented!() }
+
+    /// `<Dag as Default>::default()` (daggy lib.rs: `Dag::new()`)
+    #[verifier::external_body]
+    pub fn default() -> (r: Self)
+        ensures r.wf(), r.n() == 0, r.edges().len() == 0, r.weights().len() == 0, r.edges() == Seq::<EdgeV>::empty(), r.weights() == Seq::<N>::empty(),
     { unimplemented!() }
 
     /// `Dag::add_node`: appends the weight, returns the new index
